@@ -26,6 +26,11 @@ pub struct Case {
     /// constant on ordinary prices and not at 1e300 or 1e-300
     #[serde(default)]
     pub unit_exp: i32,
+    /// after this many inputs (0 = never) the instance is replaced by its bincode round trip and *that* instance is
+    /// fed and measured from then on: state a deserializer rebuilds differently (a capacity, a cached bound marked
+    /// `serde(skip)`) behaves on the restored copy only
+    #[serde(default)]
+    pub roundtrip_at: usize,
 }
 
 fn reset_due(mode: u8, i: usize, n: usize) -> bool {
@@ -50,12 +55,17 @@ pub const PATTERNS: [&str; 5] = ["rising", "falling", "flat", "alternating", "ra
 pub fn shape_name(shape: usize) -> String {
     if shape < SHAPES.len() {
         SHAPES[shape].to_string()
+    } else if shape >= 37 {
+        EXTRA_SHAPES[(shape - 37) % 2].to_string()
     } else {
         let k = shape - SHAPES.len();
         format!("highs_{}_lows_{}", PATTERNS[(k / 5) % 5], PATTERNS[k % 5])
     }
 }
-pub const N_SHAPES: usize = 12 + 25;
+pub const N_SHAPES: usize = 12 + 25 + 2;
+/// 37: whole-tick walk around zero (a spread, a change series): exact zeros, sign changes, negative prices;
+/// 38: compounding sweep through hundreds of binary orders of magnitude and back (7 % per step, full mantissas)
+pub const EXTRA_SHAPES: [&str; 2] = ["zero_crossing_ticks", "geometric_sweep"];
 
 fn pattern(p: usize, i: usize, u: f64) -> f64 {
     // values in [0, 100]; the monotone ones are strictly monotone for more than 1e7 steps
@@ -86,6 +96,30 @@ fn gen_inputs(c: &Case) -> Vec<RawBar> {
 fn gen_inputs_unit1(c: &Case) -> Vec<RawBar> {
     let mut st = c.seed;
     let mut out = Vec::with_capacity(c.len);
+    if c.shape >= 37 {
+        let mut k: i64 = 3;
+        let mut x = 1e-150f64;
+        let mut up = true;
+        for _ in 0..c.len {
+            let u = unit(&mut st);
+            let p = if c.shape == 37 {
+                k = (k + (u * 5.0) as i64 - 2).clamp(-8, 8);
+                k as f64 * 0.25
+            } else {
+                let f = 1.0 + 0.07 * (0.5 + 0.5 * u);
+                x = if up { x * f } else { x / f };
+                if x > 1e140 {
+                    up = false;
+                } else if x < 1e-150 {
+                    up = true;
+                }
+                x
+            };
+            let sp = if c.shape == 37 { 0.25 * ((unit(&mut st) * 2.0) as i64) as f64 } else { 0.01 * p * unit(&mut st) };
+            out.push(RawBar { o: p, h: p + sp, l: p - sp, c: p, v: 1.0 + (1000.0 * unit(&mut st)).round() });
+        }
+        return out;
+    }
     if c.shape >= SHAPES.len() {
         let k = c.shape - SHAPES.len();
         let (hp, lp) = ((k / 5) % 5, k % 5);
@@ -138,6 +172,11 @@ fn gen_inputs_unit1(c: &Case) -> Vec<RawBar> {
     out
 }
 
+fn roundtrip(ind: &Ind, k: Kind) -> Result<Ind, Failure> {
+    let bytes = ind.ser().map_err(|e| Failure { signature: format!("C18:{}:serde_error", k.name()), detail: e })?;
+    Ind::de(k, &bytes).map_err(|e| Failure { signature: format!("C18:{}:serde_error", k.name()), detail: e })
+}
+
 pub fn check(c: &Case, ctx: &mut Ctx) -> Result<(), Failure> {
     let k = c.cfg.kind;
     let name = k.name();
@@ -154,6 +193,9 @@ pub fn check(c: &Case, ctx: &mut Ctx) -> Result<(), Failure> {
     for (i, b) in inputs.iter().enumerate() {
         if reset_due(c.resets, i, n) {
             ind.reset();
+        }
+        if c.roundtrip_at > 0 && i == c.roundtrip_at {
+            ind = roundtrip(&ind, k)?;
         }
         if scalar {
             ind.next_scalar(b.c);
@@ -186,6 +228,11 @@ pub fn check(c: &Case, ctx: &mut Ctx) -> Result<(), Failure> {
     // (ii) live heap: fresh instance, warm up, then measure net growth while feeding the rest
     let mut ind = Ind::build(k, &p).map_err(|_| Failure { signature: "C18:harness".into(), detail: "HARNESS build".into() })?;
     let warm = (2 * n + 10).min(inputs.len());
+    if c.roundtrip_at > 0 {
+        // the measured instance is a restored one (restored before the warm-up, so that the copy itself is not counted)
+        ind = roundtrip(&ind, k)?;
+        ctx.label("restored_instance_measured");
+    }
     for b in &inputs[..warm] {
         if scalar {
             ind.next_scalar(b.c);
@@ -233,6 +280,7 @@ pub fn check(c: &Case, ctx: &mut Ctx) -> Result<(), Failure> {
         fp.u(scalar as u64);
         fp.u(c.resets as u64);
         fp.u(c.unit_exp as u32 as u64);
+        fp.u(c.roundtrip_at as u64);
         if c.resets > 0 {
             ctx.label("with_resets");
         }
@@ -248,18 +296,18 @@ pub fn check(c: &Case, ctx: &mut Ctx) -> Result<(), Failure> {
 const PERIODS: [usize; 8] = [1, 2, 3, 5, 14, 64, 200, 512];
 
 fn strategy(maxlen: usize) -> BoxedStrategy<Case> {
-    (any_kind().prop_flat_map(|k| cfg_for(k, 512, multiplier_any())), prop_oneof![2 => Just(0usize), 2 => Just(1usize), 1 => Just(2usize), 1 => Just(3usize), 1 => Just(4usize), 1 => Just(5usize), 1 => Just(6usize), 1 => Just(7usize), 1 => Just(8usize), 1 => Just(9usize), 1 => Just(10usize), 1 => Just(11usize), 6 => 12usize..N_SHAPES], (maxlen / 10)..=maxlen, any::<u64>(), any::<bool>(), prop_oneof![3 => Just(0u8), 1 => 1u8..6], prop_oneof![6 => Just(0i32), 1 => Just(290), 1 => Just(-300), 1 => -60i32..60])
+    (any_kind().prop_flat_map(|k| cfg_for(k, 512, multiplier_any())), prop_oneof![2 => Just(0usize), 2 => Just(1usize), 1 => Just(2usize), 1 => Just(3usize), 1 => Just(4usize), 1 => Just(5usize), 1 => Just(6usize), 1 => Just(7usize), 1 => Just(8usize), 1 => Just(9usize), 1 => Just(10usize), 1 => Just(11usize), 6 => 12usize..37usize, 2 => 37usize..N_SHAPES], (maxlen / 10)..=maxlen, any::<u64>(), any::<bool>(), prop_oneof![3 => Just(0u8), 1 => 1u8..6], prop_oneof![6 => Just(0i32), 1 => Just(290), 1 => Just(-300), 1 => -60i32..60])
         .prop_map(|(cfg, shape, len, seed, scalar, resets, unit_exp)| {
             let n = cfg.p.iter().copied().max().unwrap_or(1);
             let heavy = matches!(cfg.kind, Kind::Mad | Kind::Cci | Kind::Er) && n > 32;
             let len = if heavy { (len / (n / 16)).max(20 * n) } else { len.max(20 * n) };
-            Case { cfg, shape, len, seed, scalar, resets, unit_exp: if shape == 11 { unit_exp.min(280) } else { unit_exp } }
+            Case { cfg, shape, len, seed, scalar, resets, unit_exp: if shape == 11 { unit_exp.min(280) } else { unit_exp }, roundtrip_at: if seed % 5 == 0 { 1 + (seed >> 8) as usize % (len / 2).max(1) } else { 0 } }
         })
         .boxed()
 }
 
 pub fn run(g: &mut Global) {
-    g.rule = "grid: all 22 indicators x periods {1,2,3,5,14,64,200,512} x 12 single-series stream shapes (zero-volume moving quotes, an enormous tick every `period` inputs, monotone up, monotone down, alternating, flat, random, rising and falling staircases with exact ties, repeated touches of an exact floor / ceiling, tick-grid walk) x scalar/bar path, streams of 1e5 (quick) / 1e6 (thorough) inputs; extreme_units: all 22 indicators x periods {1,14,64} x {random, monotone, flat} with every price multiplied by 1e300, 1e-300, 1e57, 1e-45, 1e150, 1e-310; two_series_bars: the 9 indicators that read more than one bar field x the 8 periods x 25 shapes in which highs and lows follow patterns of their own (rising / falling / flat / alternating / random each: contracting inside-bar ranges, expanding ranges, a rising ceiling over a flat floor, ...); with_resets: periods {1,9,20,60} x five reset schedules (every 50 / 390 / n+1 inputs, once after the window filled, during warm-up and every 7n+3) x 3 shapes; random: proptest (kind, periods from the mixture to 512, shape, length, seed). Oracle: (i) bincode::serialized_size <= 256 + 64*(sum of periods) at every one of the first 4n+50 inputs and at geometrically spaced checkpoints afterwards; (ii) counting #[global_allocator] with per-thread live-byte counters: after a warm-up of 2n+10 inputs, the net growth (and the sampled peak) of live heap bytes while feeding the rest stays <= the same bound; the number of allocation calls during that phase is reported. Non-trivial = stream at least 20 periods long; sub-class monotone shapes (worst case for a retained history / monotonic deque); distinct by (kind, parameters, shape, length, seed, path).".into();
+    g.rule = "grid: all 22 indicators x periods {1,2,3,5,14,64,200,512} x 12 single-series stream shapes (zero-volume moving quotes, an enormous tick every `period` inputs, monotone up, monotone down, alternating, flat, random, rising and falling staircases with exact ties, repeated touches of an exact floor / ceiling, tick-grid walk) x scalar/bar path, streams of 1e5 (quick) / 1e6 (thorough) inputs; extreme_units: all 22 indicators x periods {1,14,64} x {random, monotone, flat} with every price multiplied by 1e300, 1e-300, 1e57, 1e-45, 1e150, 1e-310; zero_crossing_and_sweep: a whole-tick walk around zero (exact zeros, sign changes) and a compounding sweep through hundreds of binary orders of magnitude and back; restored_instances: the instance is replaced by its bincode round trip after 1, n or 3n+7 inputs and the restored copy is fed and measured; two_series_bars: the 9 indicators that read more than one bar field x the 8 periods x 25 shapes in which highs and lows follow patterns of their own (rising / falling / flat / alternating / random each: contracting inside-bar ranges, expanding ranges, a rising ceiling over a flat floor, ...); with_resets: periods {1,9,20,60} x five reset schedules (every 50 / 390 / n+1 inputs, once after the window filled, during warm-up and every 7n+3) x 3 shapes; random: proptest (kind, periods from the mixture to 512, shape, length, seed). Oracle: (i) bincode::serialized_size <= 256 + 64*(sum of periods) at every one of the first 4n+50 inputs and at geometrically spaced checkpoints afterwards; (ii) counting #[global_allocator] with per-thread live-byte counters: after a warm-up of 2n+10 inputs, the net growth (and the sampled peak) of live heap bytes while feeding the rest stays <= the same bound; the number of allocation calls during that phase is reported. Non-trivial = stream at least 20 periods long; sub-class monotone shapes (worst case for a retained history / monotonic deque); distinct by (kind, parameters, shape, length, seed, path).".into();
     g.assumptions = vec![
         "inputs are pre-generated before the measured phase; the feeding loop itself allocates nothing".into(),
         "heap is measured on the thread that feeds the indicator; ta spawns no threads".into(),
@@ -280,7 +328,7 @@ pub fn run(g: &mut Global) {
             let heavy = matches!(kind, Kind::Mad | Kind::Cci | Kind::Er) && n > 32;
             let l = if heavy { (len / (n / 16)).max(20 * n) } else { len.max(20 * n) };
             let mut s = seed ^ i.wrapping_mul(0x2545F4914F6CDD1D);
-            Case { cfg: cfg_small(kind, n), shape, len: l, seed: splitmix(&mut s), scalar, resets: 0, unit_exp: 0 }
+            Case { cfg: cfg_small(kind, n), shape, len: l, seed: splitmix(&mut s), scalar, resets: 0, unit_exp: 0, roundtrip_at: 0 }
         },
         &check,
     );
@@ -297,7 +345,41 @@ pub fn run(g: &mut Global) {
             let heavy = matches!(kind, Kind::Cci) && n > 32;
             let l = if heavy { (len / (n / 16)).max(20 * n) } else { len.max(20 * n) };
             let mut s = seed ^ (i + 991).wrapping_mul(0x2545F4914F6CDD1D);
-            Case { cfg: cfg_small(kind, n), shape, len: l, seed: splitmix(&mut s), scalar: false, resets: 0, unit_exp: 0 }
+            Case { cfg: cfg_small(kind, n), shape, len: l, seed: splitmix(&mut s), scalar: false, resets: 0, unit_exp: 0, roundtrip_at: 0 }
+        },
+        &check,
+    );
+    // exact zeros / sign changes and a compounding sweep through hundreds of binades (EXTRA_SHAPES); and the common
+    // shapes on an instance restored from its own bytes after 1, n, 3n+7 inputs
+    g.exhaustive(
+        "zero_crossing_and_sweep",
+        22 * 4 * 2 * 2,
+        &move |i| {
+            let scalar = i % 2 == 0;
+            let r = i / 2;
+            let shape = 37 + (r % 2) as usize;
+            let r = r / 2;
+            let n = [1usize, 5, 14, 64][(r % 4) as usize];
+            let kind = ALL_KINDS[(r / 4) as usize];
+            let heavy = matches!(kind, Kind::Mad | Kind::Cci | Kind::Er) && n > 32;
+            let mut s = seed ^ (i + 7001).wrapping_mul(0x2545F4914F6CDD1D);
+            Case { cfg: cfg_small(kind, n), shape, len: if heavy { 20_000 } else { 40_000 }, seed: splitmix(&mut s), scalar, resets: 0, unit_exp: 0, roundtrip_at: 0 }
+        },
+        &check,
+    );
+    g.exhaustive(
+        "restored_instances",
+        22 * 3 * 3 * 3,
+        &move |i| {
+            let shape = [4usize, 0, 5][(i % 3) as usize];
+            let r = i / 3;
+            let n = [2usize, 14, 60][(r % 3) as usize];
+            let r = r / 3;
+            let at = [1usize, n, 3 * n + 7][(r % 3) as usize];
+            let kind = ALL_KINDS[(r / 3) as usize];
+            let heavy = matches!(kind, Kind::Mad | Kind::Cci | Kind::Er) && n > 32;
+            let mut s = seed ^ (i + 9001).wrapping_mul(0x2545F4914F6CDD1D);
+            Case { cfg: cfg_small(kind, n), shape, len: if heavy { 20_000 } else { 40_000 }, seed: splitmix(&mut s), scalar: i % 2 == 0, resets: 0, unit_exp: 0, roundtrip_at: at }
         },
         &check,
     );
@@ -315,7 +397,7 @@ pub fn run(g: &mut Global) {
             let kind = ALL_KINDS[(r / 3) as usize];
             let heavy = matches!(kind, Kind::Mad | Kind::Cci | Kind::Er) && n > 32;
             let mut s = seed ^ (i + 4242).wrapping_mul(0x2545F4914F6CDD1D);
-            Case { cfg: cfg_small(kind, n), shape, len: if heavy { ulen / 2 } else { ulen }, seed: splitmix(&mut s), scalar: i % 2 == 1, resets: 0, unit_exp }
+            Case { cfg: cfg_small(kind, n), shape, len: if heavy { ulen / 2 } else { ulen }, seed: splitmix(&mut s), scalar: i % 2 == 1, resets: 0, unit_exp, roundtrip_at: 0 }
         },
         &check,
     );
@@ -334,7 +416,7 @@ pub fn run(g: &mut Global) {
             let kind = ALL_KINDS[(r / 4) as usize];
             let heavy = matches!(kind, Kind::Mad | Kind::Cci | Kind::Er) && n > 32;
             let mut s = seed ^ (i + 13).wrapping_mul(0x2545F4914F6CDD1D);
-            Case { cfg: cfg_small(kind, n), shape, len: if heavy { rlen / 2 } else { rlen }, seed: splitmix(&mut s), scalar: i % 2 == 0, resets, unit_exp: 0 }
+            Case { cfg: cfg_small(kind, n), shape, len: if heavy { rlen / 2 } else { rlen }, seed: splitmix(&mut s), scalar: i % 2 == 0, resets, unit_exp: 0, roundtrip_at: 0 }
         },
         &check,
     );
